@@ -10,11 +10,14 @@ PROPS = {
     "C19": dict(
         level="exploration",
         technique="property-based testing (rapid): generated instance-type vectors x configurations run through the real "
-                  "capacity arithmetic (limits, daemon pool sizing and feature gating, Node CR flavor, node annotations "
-                  "and extended resources), checked against inequalities computed from the raw vector",
-        rule="cases drawn by rapid generators (instance-type description, daemon/controller config, node labels, "
-             "attached-ENI status); non-trivial = at least one requested feature the instance type lacks, or a "
-             "configured maximum (max_eni / pool size / min_eni) above the instance limit, or a junk limit field; "
+                  "capacity arithmetic (limits; legacy daemon builder steps InitService / node-label handling / "
+                  "initInstanceLimit / getPoolConfig; Node CR flavor; node annotations and extended resources, incl. an "
+                  "in-place instance-type change), checked against inequalities computed from the raw vector",
+        rule="cases drawn by rapid generators (instance-type description, daemon/controller config, node labels incl. "
+             "exclusive-ENI mode on daemon and controller side, attached-ENI status, optional resize of the same instance "
+             "to another generated type); non-trivial = at least one requested feature the instance type lacks, or a "
+             "configured maximum (max_eni / pool size / min_eni) above the instance limit, or a junk limit field, or a "
+             "resize to a smaller type; "
              "distinct = distinct scenario hash",
         assumptions=[
             "instance types have at least one interface and one IPv4 address per interface; pool sizes are >= 0",
@@ -22,17 +25,21 @@ PROPS = {
             "are only required not to exceed the default-ratio outputs",
         ],
         level_text="generated limit vectors and configurations checked against an independent arithmetic reference "
-                   "at four call sites and through a closed loop (controller -> daemon-side reconcile -> controller) "
+                   "at four call sites (the daemon one through the real NetworkServiceBuilder steps, so every step sees "
+                   "the daemon mode the builder hands it; IPv6 is held against the pool that is actually sized: "
+                   "MaxIPPerENI <= IPv6 per interface) and through a closed loop (controller -> daemon-side reconcile -> controller) "
                    "over the in-memory API server; exploration, not proof",
-        level_note="builder.go:334-356 (ERDMA/annotation arithmetic interleaved with cloud and metadata calls) and the "
+        level_note="k8s.NewK8S needs an API server: the two node-label statements of InitK8S are replayed verbatim on a "
+                   "stub k8s.Kubernetes; limits reach the daemon through the node annotation only (b.aliyunClient is a "
+                   "concrete OpenAPI client); builder.go:334-356 (ERDMA/annotation arithmetic interleaved with cloud and metadata calls) and the "
                    "count handed to the ERDMA device plugin are not reachable; the node capability file is replaced by "
                    "in-memory nodecap settings; the fake client stands in for the API server",
         tests=[
             dict(unit="c19_client", test="TestVerifC19Limits", quick=100000, thorough=2000000),
             dict(unit="c19_daemon", test="TestVerifC19Pool", quick=100000, thorough=2000000),
-            dict(unit="c19_ctlnode", test="TestVerifC19NodeAnno", quick=16000, thorough=400000),
-            dict(unit="c19_eni", test="TestVerifC19NodeReconcile", quick=16000, thorough=400000),
-            dict(unit="c19_eni", test="TestVerifC19ClosedLoop", quick=16000, thorough=400000),
+            dict(unit="c19_ctlnode", test="TestVerifC19NodeAnno", quick=16000, thorough=300000),
+            dict(unit="c19_eni", test="TestVerifC19NodeReconcile", quick=16000, thorough=300000),
+            dict(unit="c19_eni", test="TestVerifC19ClosedLoop", quick=16000, thorough=300000),
             dict(unit="c19_eni", test="TestVerifC19KnownWitnessIPv6Only", quick=1, thorough=1, shards=1),
             dict(unit="c19_eni", test="TestVerifC19KnownWitnessCRDPool", quick=1, thorough=1, shards=1),
         ],
